@@ -29,34 +29,78 @@ class RenameLocals(ast.NodeTransformer):
         self.generic_visit(node)
         if self.func_filter and self.func_filter not in node.name:
             return node
-        nested = [n for n in ast.walk(node) if n is not node and isinstance(n, (ast.FunctionDef, ast.AsyncFunctionDef, ast.ClassDef))]
-        if nested or any(isinstance(n, (ast.Global, ast.Nonlocal)) for n in ast.walk(node)):
+        if any(isinstance(n, (ast.Global, ast.Nonlocal)) for n in ast.walk(node)):
             return node
         if any(isinstance(n, ast.Name) and n.id in ('locals', 'vars', 'eval', 'exec') for n in ast.walk(node)):
             return node
-        params = {a.arg for a in node.args.args + node.args.kwonlyargs + node.args.posonlyargs}
-        if node.args.vararg:
-            params.add(node.args.vararg.arg)
-        if node.args.kwarg:
-            params.add(node.args.kwarg.arg)
+        if any(isinstance(n, ast.ClassDef) for n in ast.walk(node)):
+            return node
+
+        def scope_nodes(fn):
+            """nodes of fn's own scope; nested function nodes are yielded (not entered)"""
+            todo = list(ast.iter_child_nodes(fn))
+            while todo:
+                n = todo.pop()
+                yield n
+                if isinstance(n, (ast.FunctionDef, ast.AsyncFunctionDef, ast.Lambda)):
+                    continue
+                todo.extend(ast.iter_child_nodes(n))
+
+        def params_of(fn):
+            a = fn.args
+            ps = {x.arg for x in a.args + a.kwonlyargs + a.posonlyargs}
+            if a.vararg:
+                ps.add(a.vararg.arg)
+            if a.kwarg:
+                ps.add(a.kwarg.arg)
+            return ps
+
+        def bound_in(fn):
+            out = set(params_of(fn))
+            for n in scope_nodes(fn):
+                if isinstance(n, ast.Name) and isinstance(n.ctx, (ast.Store, ast.Del)):
+                    out.add(n.id)
+                elif isinstance(n, (ast.FunctionDef, ast.AsyncFunctionDef)):
+                    out.add(n.name)
+                elif isinstance(n, ast.ExceptHandler) and n.name:
+                    out.add(n.name)
+                elif isinstance(n, (ast.Import, ast.ImportFrom)):
+                    for a in n.names:
+                        out.add((a.asname or a.name).split('.')[0])
+            return out
+        params = params_of(node)
+        keep = set(params) | {'self', 'cls', '_'}
         stored = set()
-        for n in ast.walk(node):
+        for n in scope_nodes(node):
             if isinstance(n, ast.Name) and isinstance(n.ctx, (ast.Store, ast.Del)):
                 stored.add(n.id)
+            elif isinstance(n, (ast.FunctionDef, ast.AsyncFunctionDef)):
+                keep.add(n.name)
             elif isinstance(n, ast.ExceptHandler) and n.name:
-                stored.add('!' + n.name)      # handler names are not Name nodes: leave them alone
+                keep.add(n.name)
             elif isinstance(n, (ast.Import, ast.ImportFrom)):
                 for a in n.names:
-                    stored.discard((a.asname or a.name).split('.')[0])
-                    params.add((a.asname or a.name).split('.')[0])
-        banned = {s[1:] for s in stored if s.startswith('!')}
-        names = {s for s in stored if not s.startswith('!')} - params - banned - {'self', 'cls', '_'}
+                    keep.add((a.asname or a.name).split('.')[0])
+        names = stored - keep
+        names = {x for x in names if not x.endswith('_r')}      # already renamed by an inner pass
         if not names:
             return node
-        for n in ast.walk(node):
-            if isinstance(n, ast.Name) and n.id in names:
-                n.id = n.id + '_r'
-                self.n += 1
+
+        def rename(fn, active):
+            for n in scope_nodes(fn):
+                if isinstance(n, ast.Name) and n.id in active:
+                    n.id = n.id + '_r'
+                    self.n += 1
+                elif isinstance(n, (ast.FunctionDef, ast.AsyncFunctionDef, ast.Lambda)):
+                    inner = active - (bound_in(n) if not isinstance(n, ast.Lambda) else params_of(n))
+                    # default values / decorators belong to the enclosing scope
+                    for d in list(n.args.defaults) + [x for x in n.args.kw_defaults if x is not None] + list(getattr(n, 'decorator_list', [])):
+                        for m in ast.walk(d):
+                            if isinstance(m, ast.Name) and m.id in active:
+                                m.id = m.id + '_r'
+                    if inner:
+                        rename(n, inner)
+        rename(node, names)
         return node
 
     visit_AsyncFunctionDef = visit_FunctionDef
